@@ -10,7 +10,8 @@ RULE = ("a corpus of deterministic operations (vector (de)serialization of every
         "under RAYON_NUM_THREADS in {1,2,3,7,16}, twice each: every output must be identical; shuffles+proofs produced by the rayon "
         "build (OS randomness) verify and decrypt in the sequential build and vice versa; a sample of the rayon outputs is also "
         "compared with the Gallina model; large inputs (labels of 70 KB / 300 KB / 1.2 MB in shuffle, Schnorr and hash_to_exp "
-        "transcripts, 3000 (thorough 12000) ciphertext statements and vectors) compared between the builds only")
+        "transcripts, 3000 (thorough 12000) ciphertext statements and vectors) compared between the builds only"
+        " Added in session 3: rayon decryption_factor_many position-aligned under 2,3,7,16 threads;")
 
 
 def run(env):
